@@ -114,7 +114,7 @@ func runC02(cfg Config, r *Result) {
 	}
 	// untyped empty literals against operands / declared types / parameters of every kind, in every typed position
 	// (harness/c02empty.go): the ill-typed combinations must be rejected, the accepted ones must not go wrong
-	for i := 0; i < cfg.N(1200, 30000); i++ {
+	for i := 0; i < cfg.N(1200, 12000); i++ {
 		src, fam := c02EmptyProgram(cfg.Rng)
 		d := semCase(model, r, src, SemOpts{StopAt: -1, YieldBudget: 100000}, true, "empty-"+fam+":")
 		if strings.HasPrefix(d.Impl.ParseErr, "gopanic") {
